@@ -344,90 +344,116 @@ func setGuarded(s ssa.CallInstruction) bool {
 
 // ---- R3 -------------------------------------------------------------------
 
-// panicInventory: audited explicit panics: function -> invariant.
-var panicInventory = map[string]string{
-	"(internal/diff.EditScript).String":                    "switch over the package's own three edit types",
-	"(internal/diff.EditScript).stats":                     "switch over the package's own three edit types",
-	"internal/data.WithValue":                              "nil key/value: every call site passes a non-nil struct/string key and a struct value (R4 lists them)",
-	"internal/data.Lookup":                                 "non-pointer target: every call site passes &local (R4 lists them)",
-	"internal/pgo/augment.rewrite":                         "type switch over the package's own three augmentation types",
-	"internal/goast.ImportPath":                            "nil spec / invalid path literal: specs come from go/parser which only accepts string literals as import paths",
-	"internal/goast.ImportName":                            "nil spec: not called with nil",
-	"internal/goast.FindImportSpec":                        "nil file: called with the parsed target file",
-	"internal/goast.transformPos":                          "maps inside AST nodes: go/ast uses maps only in Scope, which File handling skips (R6 checks the schema)",
-	"(*internal/pgo.augmenter).Apply":                      "type switch over the augmentations that can reach Apply (Dots only: FakePackage/FakeFunc are stripped in Parse)",
-	"internal/pgo.Parse":                                   "'impossible' beliefs: the augmenter always yields one declaration (a fake func when no declaration token starts the source); the top-level node kinds are the four go/parser can produce there",
-	"(internal/engine.SearchReplacer).Replace":             "field name recorded from the same parent by astutil.Cursor (dead code: SearchReplacer is never constructed)",
-	"(*internal/engine.matcherCompiler).compileFile":       "type switch over the four pgo node kinds pgo.Parse produces",
-	"(*internal/engine.replacerCompiler).compileFile":      "type switch over the four pgo node kinds pgo.Parse produces",
-	"(internal/engine.FileReplacer).Replace":               "field name recorded from the same parent by astutil.Cursor",
+// belief is an audited "cannot happen": at most Max occurrences of a panic
+// message / an unchecked type assertion of a given shape in a package, with
+// the invariant that makes it unreachable. Keys are independent of the
+// function the construct sits in, so moving code into a helper changes nothing.
+type belief struct {
+	Max int
+	Why string
 }
 
-// assertInventory: audited single-result type assertions: function -> invariant.
-var assertInventory = map[string]string{
-	"internal/astdiff.snapshot":                                "values walked are go/ast nodes",
-	"(internal/astdiff.changeFinder).Walk":                     "token.Pos typed fields only (guarded by the type switch on the field type)",
-	"(internal/astdiff.changeFinder).walkStruct":               "token.Pos typed fields only",
-	"(*internal/astdiff.nodeComparer).Walk":                    "token.Pos typed fields only",
-	"internal/pgo.Parse":                                       "FakeFunc augmentation implies the single declaration is the synthesized func",
-	"(*internal/engine.matcherCompiler).compilePosMatcher":     "called only from the goast.PosType case of compile",
-	"(internal/engine.PosMatcher).Match":                       "PosMatcher is compiled only for token.Pos fields and StructMatcher checked the struct type first",
-	"(*internal/engine.replacerCompiler).compilePosReplacer":   "called only from the goast.PosType case of compile",
-	"internal/engine.sectionRegion":                            "elements of []ast.Stmt / []ast.Expr / []*ast.Field are ast.Nodes",
-	"(*internal/engine.matcherCompiler).compileIdent":          "called only from the goast.IdentPtrType case of compile / for import names",
-	"(*internal/engine.replacerCompiler).compileIdent":         "called only from the goast.IdentPtrType case of compile / for import names",
-	"(internal/engine.GenericNodeMatcher).Match":               "GenericNodeMatcher wraps only matchers of types implementing ast.Node",
-	"(internal/engine.Changelog).ChangedIntervals$1":           "the interval set only ever holds *span",
-	"(*internal/engine.span).Intersect":                        "the interval set only ever holds *span",
-	"(*internal/engine.span).Before":                           "the interval set only ever holds *span (nil handled first)",
-	"(*internal/engine.span).Bisect":                           "result of span.Intersect",
-	"(*internal/engine.span).Adjoin":                           "the interval set only ever holds *span",
-	"(*internal/engine.span).Encompass":                        "the interval set only ever holds *span",
-	"(internal/engine.ImportReplacer).Replace":                 "import names are matched by identifier metavariables or literal identifiers: the replacer yields *ast.Ident",
-	"(*internal/engine.matcherCompiler).compileForStmt":        "called only from the goast.ForStmtPtrType case of compile",
-	"(internal/engine.ForDotsMatcher).Match":                   "field named Body of ForStmt/RangeStmt is *ast.BlockStmt (schema checked in C04)",
-	"(*internal/engine.replacerCompiler).compileForStmt":       "called only from the goast.ForStmtPtrType case of compile",
+// panicInventory: "package|message (or Sprintf format)" -> belief.
+var panicInventory = map[string]belief{
+	"internal/diff|invalid edit-type":                         {2, "switch over the package's own three edit types"},
+	"internal/data|key or value may not be nil":               {1, "every call site passes a non-nil struct/string key and a struct value (R4 lists them)"},
+	"internal/data|Lookup target must be a pointer, not %v":   {1, "every call site passes &local (R4 lists them)"},
+	"internal/pgo/augment|unknown augmentation type %T":       {1, "type switch over the package's own three augmentation types"},
+	"internal/goast|ImportSpec and its Path must be non-nil":  {1, "specs come from go/parser"},
+	"internal/goast|invalid import path %q: %v":               {1, "go/parser only accepts string literals as import paths"},
+	"internal/goast|ImportSpec must be non-nil":               {1, "not called with nil"},
+	"internal/goast|File must be non-nil":                     {1, "called with the parsed target file"},
+	"internal/goast|cannot use maps inside an AST node":       {1, "go/ast uses maps only in Scope, which File handling skips (R6 checks the schema)"},
+	"internal/pgo|unknown augmentation %T":                    {1, "only Dots augmentations reach Apply: FakePackage/FakeFunc are stripped in Parse"},
+	"internal/pgo|impossible: could not find a declaration":   {1, "the augmenter always yields one declaration (a fake func when no declaration token starts the source)"},
+	"internal/pgo|impossible: unknown top-level type %T":      {1, "the four node kinds go/parser can produce at that place"},
+	"internal/engine|%q is not a field of %T":                 {2, "field name recorded from the same parent by astutil.Cursor (one of the two sites is the dead SearchReplacer)"},
+	"internal/engine|unknown pgo node %T":                     {2, "type switch over the four pgo node kinds pgo.Parse produces (matcher and replacer compileFile)"},
+}
+
+// assertInventory: "package|asserted type <- operand kind" -> belief.
+var assertInventory = map[string]belief{
+	"internal/astdiff|ast.Node <- call:(reflect.Value).Interface":            {1, "values walked are go/ast nodes"},
+	"internal/astdiff|token.Pos <- call:(*internal/astdiff.value).Interface": {5, "token.Pos typed fields only (guarded by the type test on the field type)"},
+	"internal/engine|*ast.ForStmt <- call:(reflect.Value).Interface":         {2, "compileForStmt is called only from the goast.ForStmtPtrType case of compile (checked below)"},
+	"internal/engine|*ast.Ident <- call:(reflect.Value).Interface":           {3, "compileIdent is called only for *ast.Ident values; the import name replacer yields *ast.Ident"},
+	"internal/engine|*engine.span <- call:(*internal/engine.span).Intersect": {1, "result of span.Intersect"},
+	"internal/engine|*engine.span <- param:intervalset.Interval":             {5, "the interval set only ever holds *span"},
+	"internal/engine|ast.Node <- call:(reflect.Value).Interface":             {4, "elements of []ast.Stmt / []ast.Expr / []*ast.Field, GenericNodeMatcher candidates and the for-body are ast.Nodes"},
+	"internal/engine|token.Pos <- call:(reflect.Value).Interface":            {3, "Pos matchers/replacers are compiled only for token.Pos fields (checked below) and StructMatcher checked the struct type first"},
+	"internal/pgo|*ast.FuncDecl <- value:ast.Node":                           {1, "a FakeFunc augmentation implies the single declaration is the synthesized func"},
+}
+
+func panicMessage(p *ssa.Panic) string {
+	v := p.X
+	if mi, ok := v.(*ssa.MakeInterface); ok {
+		v = mi.X
+	}
+	if s, ok := an.ConstString(v); ok {
+		return s
+	}
+	if c, ok := v.(*ssa.Call); ok && an.IsCallTo(c, "fmt.Sprintf") {
+		if s, ok := an.ConstString(c.Call.Args[0]); ok {
+			return s
+		}
+	}
+	return "?" + an.Describe(v)
+}
+
+func assertShape(x *ssa.TypeAssert) string {
+	op := "value:" + an.ShortType(x.X.Type())
+	switch v := x.X.(type) {
+	case *ssa.Call:
+		op = "call:" + an.TrimModule(an.CalleeName(v))
+	case *ssa.Parameter:
+		op = "param:" + an.ShortType(v.Type())
+	}
+	return an.ShortType(x.AssertedType) + " <- " + op
 }
 
 func c08Beliefs(r *an.Run) {
 	r.Rule("R3-audited-beliefs")
 	np, na := 0, 0
-	seenP, seenA := map[string]bool{}, map[string]bool{}
+	cntP, cntA := map[string]int{}, map[string]int{}
+	firstP, firstA := map[string]ssa.Instruction{}, map[string]ssa.Instruction{}
 	for _, f := range r.P.ModuleFuncs() {
 		if strings.Contains(an.FuncPkgPath(f), "/tools") {
 			continue
 		}
+		rel := strings.TrimPrefix(strings.TrimPrefix(an.FuncPkgPath(f), an.Module), "/")
 		for _, b := range f.Blocks {
 			for _, in := range b.Instrs {
 				switch x := in.(type) {
 				case *ssa.Panic:
 					np++
-					name := short(f)
-					if why, ok := panicInventory[name]; ok {
-						if !seenP[name] {
-							r.Pass(name+"|panic", x.Pos(), "audited panic: %s", why)
-							seenP[name] = true
-						}
-					} else {
-						r.Fail(name+"|panic", x.Pos(), "explicit panic in %s (%s) is not in the audited inventory: an input that reaches it crashes gopatch instead of producing a diagnostic", name, an.Describe(x.X))
+					k := rel + "|" + panicMessage(x)
+					cntP[k]++
+					if _, ok := panicInventory[k]; !ok || cntP[k] > panicInventory[k].Max {
+						r.Fail("panic|"+k, x.Pos(), "explicit panic %q in %s is not covered by the audited inventory (package %s): an input that reaches it crashes gopatch instead of producing a diagnostic", panicMessage(x), short(f), rel)
+					} else if firstP[k] == nil {
+						firstP[k] = x
 					}
 				case *ssa.TypeAssert:
 					if x.CommaOk {
 						continue
 					}
 					na++
-					name := short(f)
-					if why, ok := assertInventory[name]; ok {
-						if !seenA[name] {
-							r.Pass(name+"|assert", x.Pos(), "audited type assertion: %s", why)
-							seenA[name] = true
-						}
-					} else {
-						r.Fail(name+"|assert|"+an.ShortType(x.AssertedType), x.Pos(), "single-result type assertion to %s in %s is not in the audited inventory: it panics when the value has another type", an.ShortType(x.AssertedType), name)
+					k := rel + "|" + assertShape(x)
+					cntA[k]++
+					if _, ok := assertInventory[k]; !ok || cntA[k] > assertInventory[k].Max {
+						r.Fail("assert|"+k, x.Pos(), "single-result type assertion %s in %s is not covered by the audited inventory (package %s): it panics when the value has another type", assertShape(x), short(f), rel)
+					} else if firstA[k] == nil {
+						firstA[k] = x
 					}
 				}
 			}
 		}
+	}
+	for k, in := range firstP {
+		r.Pass("panic|"+k, in.Pos(), "audited panic (%d of at most %d): %s", cntP[k], panicInventory[k].Max, panicInventory[k].Why)
+	}
+	for k, in := range firstA {
+		r.Pass("assert|"+k, in.Pos(), "audited type assertion (%d of at most %d): %s", cntA[k], assertInventory[k].Max, assertInventory[k].Why)
 	}
 	r.Count("explicit panics", np)
 	r.Count("single-result type assertions", na)
